@@ -233,7 +233,7 @@ func (o *Out) Fail(sig, desc string) {
 }
 
 // Stat counts an event for the coverage report.
-func (o *Out) Stat(key string) { o.stats[key]++ }
+func (o *Out) Stat(key string)         { o.stats[key]++ }
 func (o *Out) StatN(key string, n int) { o.stats[key] += n }
 
 func (o *Out) Close() {
@@ -267,28 +267,59 @@ func Run(cfg Config, gen func(r *Rng, i int) []string, exec func(ops []string, o
 	o := OpenOut(cfg.OutDir)
 	defer o.Close()
 	if cfg.Replay != "" {
-		cur := filepath.Join(cfg.OutDir, "current_case.ops")
+		cur := openCaseFile(cfg.OutDir)
 		for i, c := range ReadCases(cfg.Replay) {
-			os.WriteFile(cur, []byte(fmt.Sprintf("# case %d\n%s\n", i, strings.Join(c, "\n"))), 0o644)
+			cur.put(i, c)
 			o.BeginCase(i)
 			exec(c, o)
 		}
-		os.Remove(cur)
+		cur.done()
 		return
 	}
 	root := NewRng(cfg.Seed)
-	cur := filepath.Join(cfg.OutDir, "current_case.ops")
+	cur := openCaseFile(cfg.OutDir)
 	for i := 0; i < cfg.N; i++ {
 		r := root.Fork()
 		ops := gen(r, i)
 		// Leave the case about to run on disk: if the real code kills the process
 		// (a panic in a goroutine without recover, a fatal runtime error) or hangs,
 		// the orchestrator reports this case as the failing input.
-		os.WriteFile(cur, []byte(fmt.Sprintf("# case %d\n%s\n", i, strings.Join(ops, "\n"))), 0o644)
+		cur.put(i, ops)
 		o.BeginCase(i)
 		exec(ops, o)
 	}
-	os.Remove(cur)
+	cur.done()
+}
+
+// caseFile keeps current_case.ops open for the whole run and overwrites it in
+// place (WriteAt + Truncate to the new length): re-creating or truncating the
+// file to zero for every case makes ext4 flush it on close, which costs
+// milliseconds per case on a loaded disk.
+type caseFile struct {
+	path string
+	f    *os.File
+}
+
+func openCaseFile(dir string) *caseFile {
+	c := &caseFile{path: filepath.Join(dir, "current_case.ops")}
+	c.f, _ = os.OpenFile(c.path, os.O_RDWR|os.O_CREATE, 0o644)
+	return c
+}
+
+func (c *caseFile) put(i int, ops []string) {
+	if c.f == nil {
+		return
+	}
+	b := []byte(fmt.Sprintf("# case %d\n%s\n", i, strings.Join(ops, "\n")))
+	c.f.WriteAt(b, 0)
+	c.f.Truncate(int64(len(b)))
+}
+
+func (c *caseFile) done() {
+	if c.f != nil {
+		c.f.Close()
+	}
+	os.Remove(c.path)
 }
 
 // ReadCases reads an ops file; lines starting with "# case" separate cases,
